@@ -58,11 +58,18 @@ def validate_all(files, tag):
             if r["accepted"]:
                 stats["events"] += r["n"]
                 continue
-            if r["hw"] is None:
-                raise vlib.Infra("trace validation of %s gave no high-water mark:\n%s" % (f, r["out"][-2000:]))
             ev = vlib.read_ndjson(f)
             inv = r["violated"] if r["violated"] not in (None, "postcondition") else None
-            i = r["hw"] - 1 - (1 if inv else 0)      # 0-based index of the event that could not be matched / broke the invariant
+            if inv:
+                # the counterexample ends in the state reached by the offending event: its l = that event's line + 1
+                ls = re.findall(r"^/\\ l = (\d+)$", r["out"], re.M)
+                if not ls:
+                    raise vlib.Infra("no counterexample for invariant %s in %s:\n%s" % (inv, f, r["out"][-2000:]))
+                i = int(ls[-1]) - 2
+            elif r["hw"] is None:
+                raise vlib.Infra("trace validation of %s gave no high-water mark:\n%s" % (f, r["out"][-2000:]))
+            else:
+                i = r["hw"] - 1                      # 0-based index of the first event that could not be matched
             i = max(0, min(i, len(ev) - 1))
             run = vlib.run_of(ev, i)
             lo = i
@@ -270,9 +277,37 @@ def run(tier, v):
     shards = 16
     s = vlib.run_driver(h, "c05_tv", out, {"shards": shards, "rounds": 1 if quick else 10, "special": True}, timeout=2400)
     files = [os.path.join(out, "shard-%02d" % i, "trace.ndjson") for i in range(shards)]
+    # 3. (started here, collected below) spec -> impl: seeded sample of TLC's behaviours replayed on real filters
+    g = fut_gen.result()
+    if not g["ok"]:
+        raise vlib.Infra("FilterGen violates %s:\n%s" % (g["violated"], g["out"][-2000:]))
+    cases = vlib.mbt_lines(g["out"])
+    if len(cases) < 1000:
+        raise vlib.Infra("MBT export produced only %d cases" % len(cases))
+    picked = mbt_sample(cases, 64 if quick else 1200, rng)
+    mdir = os.path.join(vlib.scratch(), "c05mbt")
+    os.makedirs(mdir, exist_ok=True)
+    cpath = os.path.join(mdir, "cases.ndjson")
+    with open(cpath, "w") as fh:
+        for c in picked:
+            fh.write(json.dumps(c) + "\n")
+    fut_mbt = pool.submit(lambda: vlib.run_driver(h, "c05_mbt", mdir, {"shards": shards, "cases": cpath}, timeout=3000))
+
     # 2b. process level
     ex_events, ex_samples = exit_runs(bins["trzsz"], quick, rng)
-    files.append(_write_events(ex_events, "c05-exit.ndjson"))
+    # runs that look clean go into one file; of the others (identical in shape) three are validated one by one
+    clean, suspect = [], []
+    for k in range(0, len(ex_events), 2):
+        e = ex_events[k + 1]
+        ok = e["outok"] and (e["wrapper"] != 0 if e["sig"] else e["wrapper"] == e["child"])
+        (clean if ok else suspect).append(ex_events[k:k + 2])
+    files.append(_write_events([e for r in clean for e in r] or ex_events[:1], "c05-exit-clean.ndjson"))
+    seen_cls = {}
+    for r in suspect:
+        cls = (r[1]["outok"], r[1]["sig"], r[1]["wrapper"] == r[1]["child"])
+        if seen_cls.get(cls, 0) < 2:
+            seen_cls[cls] = seen_cls.get(cls, 0) + 1
+            files.append(_write_events(r, "c05-exit-suspect-%d.ndjson" % len(files)))
     findings, st = validate_all(files, "c05tv")
     for f in findings:
         payload = {"scenario": f["scenario"], "opts": f["opts"], "event": f["event"], "invariant": f["invariant"],
@@ -330,21 +365,8 @@ def run(tier, v):
     else:
         cov["selftest"] = "skipped: every trace file had a finding"
 
-    # 3. spec -> impl
-    g = fut_gen.result()
-    if not g["ok"]:
-        raise vlib.Infra("FilterGen violates %s:\n%s" % (g["violated"], g["out"][-2000:]))
-    cases = vlib.mbt_lines(g["out"])
-    if len(cases) < 1000:
-        raise vlib.Infra("MBT export produced only %d cases" % len(cases))
-    picked = mbt_sample(cases, 64 if quick else 1200, rng)
-    mdir = os.path.join(vlib.scratch(), "c05mbt")
-    os.makedirs(mdir, exist_ok=True)
-    cpath = os.path.join(mdir, "cases.ndjson")
-    with open(cpath, "w") as fh:
-        for c in picked:
-            fh.write(json.dumps(c) + "\n")
-    m = vlib.run_driver(h, "c05_mbt", mdir, {"shards": shards, "cases": cpath}, timeout=3000)
+    # 3. spec -> impl (collect)
+    m = fut_mbt.result()
     mism = 0
     replayed = 0
     for i in range(shards):
